@@ -225,18 +225,26 @@ func c01Retire(r *core.Run, a *svcAnchors, e *lockEngine, root []*ssa.Function) 
 		}
 		n++
 		fn := ac.Fn
+		// the unregistering may sit in a private helper of the drain function (w.retire()): it is
+		// judged in place, from the helper's only caller
+		top := fn
+		if cs := p.CallersOf(fn); p.IsPrivateHelper(fn) && len(cs) == 1 && cs[0].Parent() != fn {
+			top = cs[0].Parent()
+		}
 		// index values used on the queue in this function
 		idxVals := map[ssa.Value]bool{}
-		for _, b := range fn.Blocks {
-			for _, in := range b.Instrs {
-				if ia, ok := in.(*ssa.IndexAddr); ok {
-					if f, ok := core.LoadedField(ia.X); ok && f == a.WQueue {
-						idxVals[ia.Index] = true
+		for _, f2 := range []*ssa.Function{top, fn} {
+			for _, b := range f2.Blocks {
+				for _, in := range b.Instrs {
+					if ia, ok := in.(*ssa.IndexAddr); ok {
+						if f, ok := core.LoadedField(ia.X); ok && f == a.WQueue {
+							idxVals[ia.Index] = true
+						}
 					}
 				}
 			}
 		}
-		fl := &core.Flow{Fn: fn, Entry: core.StateSet(0).Add(stale)}
+		fl := &core.Flow{Fn: top, Entry: core.StateSet(0).Add(stale), Inline: func(cal *ssa.Function) bool { return cal == fn && top != fn }}
 		fl.Transfer = func(in ssa.Instruction, s int) core.StateSet {
 			if e.isRelease(in) {
 				return core.StateSet(0).Add(stale)
@@ -773,11 +781,18 @@ func c01Pop(r *core.Run, a *svcAnchors, e *lockEngine) {
 					lk := e.stateAt(c)
 					argIsHead := true
 					lvs := valueLeaves(c.Common().Args[0], nil, 0)
+					nHead := 0
 					for _, lf := range lvs {
+						if k, isK := lf.V.(*ssa.Const); isK && k.IsNil() {
+							continue // the "nothing to take" result of a pop helper, returned with ok == false
+						}
 						if !isHeadLoad(lf.V) {
 							argIsHead = false
+						} else {
+							nHead++
 						}
 					}
+					argIsHead = argIsHead && nHead > 0
 					r.Check(st.Only(dropped) && lk.Only(lkHeld) && len(lvs) > 0 && argIsHead, "A3", fname, "drain(popped-head)", p.InstrPos(c),
 						"drain is called on the element read at [0], after it was dropped from the queue, lock Held", fmt.Sprintf("drain call not tied to an atomic pop: popState=%v lock=%s argIsHead=%v", st.List(), lkStr(lk), argIsHead))
 				}
@@ -1708,7 +1723,7 @@ func c01EnqueueUnit(r *core.Run, a *svcAnchors, e *lockEngine, gparam *ssa.Param
 						for _, bb := range h2.Blocks {
 							for _, i2 := range bb.Instrs {
 								if mu, ok := i2.(*ssa.MapUpdate); ok {
-									if mf, ok := core.LoadedField(mu.Map); ok && mf == a.RWork && mu.Value != pushed {
+									if mf, ok := core.LoadedField(mu.Map); ok && mf == a.RWork && mu.Value != pushed && !returnedBy(pushed, mu) {
 										sameAsReg = false
 									}
 								}
@@ -1888,4 +1903,22 @@ func c01EnqueueNeverRunsCallback(r *core.Run, rule string, a *svcAnchors) {
 		}
 	}
 	r.Check(bad == "", rule, core.FuncName(fn), "enqueue-never-calls-the-callback", p.Pos(fn.Pos()), "the callback is only stored into the group's queue", "the submitting function calls the callback itself (at "+bad+"): it runs on the submitting goroutine without the group being registered as busy, so another callback of the same group - submitted from another goroutine, or picked up by a worker - executes at the same time")
+}
+
+// returnedBy: pushed is the result of a call of the function that holds the
+// map update, and that function returns the very value it registered (a
+// constructor that registers the new item and hands it back).
+func returnedBy(pushed ssa.Value, mu *ssa.MapUpdate) bool {
+	c, ok := core.Strip(pushed).(*ssa.Call)
+	if !ok || c.Common().StaticCallee() != mu.Parent() {
+		return false
+	}
+	n := 0
+	for _, ret := range core.Returns(mu.Parent()) {
+		if len(ret.Results) != 1 || core.Strip(ret.Results[0]) != core.Strip(mu.Value) {
+			return false
+		}
+		n++
+	}
+	return n > 0
 }
